@@ -5,6 +5,8 @@
 -/
 import Bcder.Model.Parse
 import Bcder.Spec.X690
+import Bcder.Spec.Values
+import Bcder.Spec.Tlv
 open Bcder
 
 def clsMask (c : Nat) : UInt8 := UInt8.ofNat (c * 64)
@@ -93,7 +95,373 @@ def handleModel (toks : List String) : String :=
     match parseIntTy ty, v.toInt? with
     | some ty, some v => s!"ok {toHex (encInt ty v)} len={encIntLen ty v}"
     | _, _ => "bad-op"
+  | _ => "bad-op:model"
+
+
+/-! ### leaf value requests -/
+
+def integerOf (c : Bytes) : Option Bytes :=
+  match decodeSlice c integerFromPrimitive with | .ok v => some v | _ => none
+def unsignedOf (c : Bytes) : Option Bytes :=
+  match decodeSlice c unsignedFromPrimitive with | .ok v => some v | _ => none
+
+def allTys : List (String × IntTy) :=
+  [("i8", .i8), ("i16", .i16), ("i32", .i32), ("i64", .i64), ("i128", .i128),
+   ("u8", .u8), ("u16", .u16), ("u32", .u32), ("u64", .u64), ("u128", .u128)]
+
+def convModel (c : Bytes) : Res String := do
+  let parts ← allTys.mapM fun (n, ty) => do
+    if ty.signed then
+      match ← sliceToSigned ty.width c with
+      | some v => pure s!"{n}={v}"
+      | none => pure s!"{n}=ovf"
+    else
+      match ← sliceToUnsigned ty.width c with
+      | some v => pure s!"{n}={v}"
+      | none => pure s!"{n}=ovf"
+  pure (" ".intercalate parts)
+
+def convSpec (c : Bytes) : String :=
+  let v := Spec.tcValue c
+  " ".intercalate (allTys.map fun (n, ty) =>
+    if Spec.inRange ty.signed ty.width v then s!"{n}={v}" else s!"{n}=ovf")
+
+/-- decode one OCTET STRING from a complete encoding (`OctetString::take_from` at top level) -/
+def osOf (m : Mode) (enc : Bytes) : Res OS :=
+  let fuel := enc.length + 4
+  match runG (decodeTop m (fun c => do
+      let (os, c') ← takeValueIf c Tag.OCTET_STRING (OS.fromContent fuel)
+      pure (os, c'))) { data := enc, limit := none } with
+  | .ok (os, _) => .ok os
+  | .error e => .error e
+
+def osViews (os : OS) : Res String := do
+  let segs ← os.segments
+  let bytes ← os.octets
+  let len ← os.len
+  let empty ← os.isEmpty
+  let segStr := if segs.isEmpty then "none" else ",".intercalate (segs.map toHex)
+  let slice := match os.asSlice with | some s => toHex s | none => "none"
+  pure s!"segs={segStr} bytes={toHex bytes} into={toHex bytes} len={len} empty={b01 empty} octets={toHex bytes} slice={slice}"
+
+def charsStr (l : List Nat) : String := if l.isEmpty then "-" else ",".intercalate (l.map toString)
+
+def utf8Of (c : Nat) : Bytes := Spec.utf8Encode c
+
+def rsOf (cs : CharSet) (m : Mode) (enc : Bytes) : Res OS :=
+  let fuel := enc.length + 4
+  match runG (decodeTop m (fun c => do
+      let (os, c') ← takeValueIf c cs.tag (RS.fromContent cs fuel)
+      pure (os, c'))) { data := enc, limit := none } with
+  | .ok (os, _) => .ok os
+  | .error e => .error e
+
+def bitStr (l : List Bool) : String := if l.isEmpty then "-" else String.ofList (l.map fun b => if b then '1' else '0')
+
+def handleLeaf (toks : List String) : String :=
+  match toks with
+  | ["big.cmp", a, b] =>
+    match (ofHex a).bind integerOf, (ofHex b).bind integerOf with
+    | some x, some y => resStr do
+        let o ← BigInt.cmp x y
+        pure s!"cmp={ordStr o} pcmp={ordStr o} eq={b01 (BigInt.eq x y)} hasheq={b01 (x == y)}"
+    | _, _ => if (ofHex a).isSome && (ofHex b).isSome then "invalid" else "bad-op"
+  | ["big.pred", a] =>
+    match ofHex a with
+    | none => "bad-op"
+    | some c =>
+      match integerOf c with
+      | some x => resStr do
+          pure s!"z={b01 (BigInt.isZero x)} p={b01 (← BigInt.isPositive x)} n={b01 (← BigInt.isNegative x)}"
+      | none => "invalid"
+  | ["big.conv", a] =>
+    match ofHex a with
+    | none => "bad-op"
+    | some c => match integerOf c with | some x => resStr (convModel x) | none => "invalid"
+  | ["ubig.conv", a] =>
+    match ofHex a with
+    | none => "bad-op"
+    | some c =>
+      match unsignedOf c with
+      | some x => resStr do pure s!"{← convModel x} z={b01 (BigInt.isZero x)}"
+      | none => "invalid"
+  | ["big.from", ty, v] =>
+    match parseIntTy ty, v.toInt? with
+    | some ty, some v => s!"ok {toHex (encInt ty v)}"
+    | _, _ => "bad-op"
+  | ["uns.frombytes", a] =>
+    match ofHex a with
+    | none => "bad-op"
+    | some c => resStr do
+        match ← unsignedFromBytes c with
+        | some r => pure s!"ok {toHex r}"
+        | none => pure "err"
+  | ["os.views", mode, enc] =>
+    match Mode.ofString mode, ofHex enc with
+    | some m, some e => resStr do let os ← osOf m e; pure s!"ok {← osViews os}"
+    | _, _ => "bad-op"
+  | ["os.cmp", mode, ea, eb] =>
+    match Mode.ofString mode, ofHex ea, ofHex eb with
+    | some m, some a, some b =>
+      match osOf m a, osOf m b with
+      | .ok x, .ok y => resStr do
+          let o ← OS.cmp x y
+          let (la, fa) ← OS.hashFeed x
+          let (lb, fb) ← OS.hashFeed y
+          pure s!"ok cmp={ordStr o} pcmp={ordStr o} eq={b01 (← OS.eq x y)} hasheq={b01 (la == lb && fa == fb)}"
+      | .error (.panic p), _ => "PANIC " ++ p
+      | _, .error (.panic p) => "PANIC " ++ p
+      | _, _ => "err content"
+    | _, _, _ => "bad-op"
+  | ["os.cmps", mode, ea, t] =>
+    match Mode.ofString mode, ofHex ea, ofHex t with
+    | some m, some a, some t => resStr do
+        let x ← osOf m a
+        pure s!"ok eq={b01 (← OS.eqSlice x t)} pcmp={ordStr (← OS.cmpSlice x t)}"
+    | _, _, _ => "bad-op"
+  | ["cs.chars", cs, mode, enc] =>
+    match parseCharSet cs, Mode.ofString mode, ofHex enc with
+    | some cs, some m, some e => resStr do
+        let os ← rsOf cs m e
+        let chars ← RS.chars cs os
+        pure s!"ok chars={charsStr chars} disp={toHex (chars.flatMap utf8Of)}"
+    | _, _, _ => "bad-op"
+  | ["cs.fromstr", cs, text] =>
+    match parseCharSet cs, ofHex text with
+    | some cs, some t => resStr do
+        match ← cs.fromStr t with
+        | some bs => do
+          let chars ← RS.chars cs (.prim bs)
+          pure s!"ok {toHex bs} chars={charsStr chars}"
+        | none => pure "err"
+    | _, _ => "bad-op"
+  | ["cs.new", cs, mode, enc] =>
+    match parseCharSet cs, Mode.ofString mode, ofHex enc with
+    | some cs, some m, some e =>
+      match osOf m e with
+      | .error (.panic p) => "PANIC " ++ p
+      | .error _ => "err content"
+      | .ok os => resStr do
+        match ← RS.new cs os with
+        | some os => do pure s!"ok chars={charsStr (← RS.chars cs os)}"
+        | none => pure "err charset"
+    | _, _, _ => "bad-op"
+  | ["oid.show", c] =>
+    match ofHex c with
+    | some c => resStr do
+        let txt ← Oid.display c
+        let comps ← Oid.components c
+        let arcs := comps.map fun (p, s) => match Oid.toU32 p s with | some v => toString v | none => "big"
+        pure s!"ok txt={toHex txt} arcs={",".intercalate arcs}"
+    | none => "bad-op"
+  | ["oid.parse", t] =>
+    match ofHex t with
+    | some t => match Oid.fromStr t with | some c => s!"ok {toHex c}" | none => "err"
+    | none => "bad-op"
+  | ["oid.eq", a, b] =>
+    match ofHex a, ofHex b with
+    | some a, some b => s!"eq={b01 (a == b)} hasheq={b01 (a == b)}"
+    | _, _ => "bad-op"
+  | ["bits.bit", unused, bits, lo, hi] =>
+    match unused.toNat?, ofHex bits, lo.toNat?, hi.toNat? with
+    | some u, some bs, some lo, some hi =>
+      if u > 7 || (bs.isEmpty && u != 0) then "PANIC BitString::new assertion" else
+      let b : BitString := ⟨UInt8.ofNat u, bs⟩
+      resStr do
+        let len ← b.bitLen
+        let l := (List.range (hi - lo)).map fun i => b.bit (lo + i)
+        pure s!"len={len} unused={u} olen={bs.length} bits={bitStr l} octets={toHex bs} slice={toHex bs} obytes={toHex bs}"
+    | _, _, _, _ => "bad-op"
   | _ => "bad-op"
+
+def specCS : CharSet → Spec.CS
+  | .utf8 => .utf8 | .numeric => .numeric | .printable => .printable | .ia5 => .ia5
+
+def handleSpecLeaf (toks : List String) : String :=
+  match toks with
+  | ["big.cmp", a, b] =>
+    match ofHex a, ofHex b with
+    | some x, some y =>
+      if !(Spec.isMinimalTC x && Spec.isMinimalTC y) then "invalid" else
+      let o := compare (Spec.tcValue x) (Spec.tcValue y)
+      let e := Spec.tcValue x == Spec.tcValue y
+      s!"cmp={ordStr o} pcmp={ordStr o} eq={b01 e} hasheq={b01 e}"
+    | _, _ => "bad-op"
+  | ["big.pred", a] =>
+    match ofHex a with
+    | some x =>
+      if !Spec.isMinimalTC x then "invalid" else
+      let v := Spec.tcValue x
+      s!"z={b01 (v == 0)} p={b01 (decide (0 < v))} n={b01 (decide (v < 0))}"
+    | none => "bad-op"
+  | ["big.conv", a] =>
+    match ofHex a with
+    | some x => if !Spec.isMinimalTC x then "invalid" else convSpec x
+    | none => "bad-op"
+  | ["ubig.conv", a] =>
+    match ofHex a with
+    | some x =>
+      if !Spec.isMinimalTC x || Spec.tcValue x < 0 then "invalid"
+      else s!"{convSpec x} z={b01 (Spec.tcValue x == 0)}"
+    | none => "bad-op"
+  | ["big.from", ty, v] =>
+    match parseIntTy ty, v.toInt? with
+    | some _, some v => s!"ok {toHex (Spec.minimalTC v)}"
+    | _, _ => "bad-op"
+  | ["uns.frombytes", a] =>
+    match ofHex a with
+    | some c => if c.isEmpty then "err" else s!"ok {toHex (Spec.minimalTC (beValue c))}"
+    | none => "bad-op"
+  | ["bits.bit", unused, bits, lo, hi] =>
+    match unused.toNat?, ofHex bits, lo.toNat?, hi.toNat? with
+    | some u, some bs, some lo, some hi =>
+      if u > 7 || (bs.isEmpty && u != 0) then "nospec" else
+      let sb := Spec.specBits u bs
+      let l := (List.range (hi - lo)).map fun i => (sb[lo + i]?).getD false
+      s!"len={8 * bs.length - u} unused={u} olen={bs.length} bits={bitStr l} octets={toHex bs} slice={toHex bs} obytes={toHex bs}"
+    | _, _, _, _ => "bad-op"
+  | ["oid.parse", t] =>
+    match ofHex t with
+    | some t => match Spec.parseOid t with | some c => s!"ok {toHex c}" | none => "err"
+    | none => "bad-op"
+  | ["oid.show", c] =>
+    match ofHex c with
+    | some c =>
+      match Spec.contentToArcs c with
+      | none => "nospec"
+      | some arcs =>
+        -- only defined by the property when every minimally encoded sub-identifier fits 32 bits
+        match Spec.subIds c with
+        | some subs =>
+          if subs.all (fun s => s.head? != some 0x80 && Spec.subIdValue s < 2 ^ 32) then
+            s!"ok txt={toHex (Spec.dotted arcs)} arcs={",".intercalate (arcs.map toString)}"
+          else "nospec"
+        | none => "nospec"
+    | none => "bad-op"
+  | ["oid.eq", a, b] =>
+    match ofHex a, ofHex b with
+    | some a, some b => s!"eq={b01 (a == b)} hasheq={b01 (a == b)}"
+    | _, _ => "bad-op"
+  | ["cs.fromstr", cs, text] =>
+    match parseCharSet cs, ofHex text with
+    | some cs, some t =>
+      match Spec.csDecode (specCS cs) t with
+      | some chars => s!"ok {toHex t} chars={charsStr chars}"
+      | none => "err"
+    | _, _ => "bad-op"
+  | _ => "nospec"
+
+/-! ### reference answers from the TLV grammar -/
+
+def specMode : Mode → Spec.M | .ber => .ber | .cer => .cer | .der => .der
+
+partial def treeTrace : Spec.Tree → List String
+  | .prim id c => [s!"v{toHex id}={toHex c}"]
+  | .cons id _ kids => [s!"v{toHex id}("] ++ kids.flatMap treeTrace ++ [")"]
+
+/-- the first value of the input (top level: whatever follows is not looked at) -/
+def specSingle (m : Mode) (enc : Bytes) : Option Spec.Tree :=
+  match Spec.parseValue (specMode m) (enc.length + 2) enc with
+  | some (t, _) => some t
+  | none => none
+
+/-- content of an accepted string value with the given universal tag number -/
+def specString (m : Mode) (tagNum : UInt8) (enc : Bytes) : Option (Spec.Tree × Bytes) :=
+  match specSingle m enc with
+  | none => none
+  | some t =>
+    if !Spec.osAccept (specMode m) t then none
+    else match Spec.osContent [tagNum] [tagNum ||| 0x20] (enc.length + 2) t with
+      | some c => some (t, c)
+      | none => none
+
+def specIdentStr (i : Spec.Ident) : String :=
+  s!"id={toHex (Spec.identOctets i.cls i.constructed i.num)} c={b01 i.constructed} num={i.num} cls={i.cls} canon=1"
+
+def handleSpecTlv (toks : List String) : String :=
+  match toks with
+  | ["tag.take", hex] =>
+    match ofHex hex with
+    | some bs =>
+      match Spec.readIdent bs with
+      | some (i, k) => s!"ok {specIdentStr i} rest={bs.length - k}"
+      | none => "err content"
+    | none => "bad-op"
+  | ["tag.takeopt", hex] =>
+    match ofHex hex with
+    | some bs =>
+      if bs.isEmpty then "none rest=0" else
+      match Spec.readIdent bs with
+      | some (i, k) => s!"ok {specIdentStr i} rest={bs.length - k}"
+      | none => "err content"
+    | none => "bad-op"
+  | ["tag.takeif", cls, num, hex] =>
+    match cls.toNat?, num.toNat?, ofHex hex with
+    | some c, some n, some bs =>
+      if bs.isEmpty then "none rest=0" else
+      match Spec.readIdent bs with
+      | some (i, k) =>
+        if i.cls == c && i.num == n then s!"some c={b01 i.constructed} rest={bs.length - k}"
+        else s!"none rest={bs.length}"
+      | none => "err content"
+    | _, _, _ => "bad-op"
+  | ["run", mode, _src, hex, "all"] =>
+    match Mode.ofString mode, ofHex hex with
+    | some m, some bs =>
+      match Spec.parseAll (specMode m) (bs.length + 2) bs with
+      | some ts => s!"ok {" ".intercalate (ts.flatMap treeTrace)} | rest=0"
+      | none => "err content"
+    | _, _ => "bad-op"
+  | ["os.views", mode, enc] =>
+    match Mode.ofString mode, ofHex enc with
+    | some m, some e =>
+      match specString m 0x04 e with
+      | none => "err content"
+      | some (t, c) =>
+        let segs : List Bytes := match t with
+          | .prim _ c => if c.isEmpty then [] else [c]
+          | t => Spec.osSegments (e.length + 2) t
+        let segStr := if segs.isEmpty then "none" else ",".intercalate (segs.map toHex)
+        let slice := match t with | .prim _ c => toHex c | _ => "none"
+        s!"ok segs={segStr} bytes={toHex c} into={toHex c} len={c.length} empty={b01 c.isEmpty} octets={toHex c} slice={slice}"
+    | _, _ => "bad-op"
+  | ["os.cmp", mode, ea, eb] =>
+    match Mode.ofString mode, ofHex ea, ofHex eb with
+    | some m, some a, some b =>
+      match specString m 0x04 a, specString m 0x04 b with
+      | some (_, x), some (_, y) =>
+        let o := Spec.lexCompare x y
+        s!"ok cmp={ordStr o} pcmp={ordStr o} eq={b01 (x == y)} hasheq={b01 (x == y)}"
+      | _, _ => "err content"
+    | _, _, _ => "bad-op"
+  | ["os.cmps", mode, ea, t] =>
+    match Mode.ofString mode, ofHex ea, ofHex t with
+    | some m, some a, some t =>
+      match specString m 0x04 a with
+      | some (_, x) => s!"ok eq={b01 (x == t)} pcmp={ordStr (Spec.lexCompare x t)}"
+      | none => "err content"
+    | _, _, _ => "bad-op"
+  | ["cs.chars", cs, mode, enc] =>
+    match parseCharSet cs, Mode.ofString mode, ofHex enc with
+    | some cs, some m, some e =>
+      match specString m cs.tag.d0 e with
+      | none => "err content"
+      | some (_, c) =>
+        match Spec.csDecode (specCS cs) c with
+        | some chars => s!"ok chars={charsStr chars} disp={toHex (chars.flatMap Spec.utf8Encode)}"
+        | none => "err content"
+    | _, _, _ => "bad-op"
+  | ["cs.new", cs, mode, enc] =>
+    match parseCharSet cs, Mode.ofString mode, ofHex enc with
+    | some cs, some m, some e =>
+      match specString m 0x04 e with
+      | none => "err content"
+      | some (_, c) =>
+        match Spec.csDecode (specCS cs) c with
+        | some chars => s!"ok chars={charsStr chars}"
+        | none => "err charset"
+    | _, _, _ => "bad-op"
+  | _ => "nospec"
 
 def handleSpec (toks : List String) : String :=
   match toks with
@@ -122,7 +490,27 @@ def handleSpec (toks : List String) : String :=
       | some (none, _) => if m == .der then "err content" else "indef"
       | none => "err content"
     | _, _ => "bad-op"
-  | _ => "nospec"
+  | ["prim", mode, hex, "int", ty] =>
+    match Mode.ofString mode, ofHex hex, parseIntTy ty with
+    | some _, some c, some ty =>
+      match Spec.decodeInt ty.signed ty.width c with
+      | some v => s!"ok i{v}"
+      | none => "err content"
+    | _, _, _ => "bad-op"
+  | ["prim", mode, hex, "bool"] =>
+    match Mode.ofString mode, ofHex hex with
+    | some m, some c =>
+      match Spec.decodeBool m.isBer c with
+      | some b => s!"ok b{b01 b}"
+      | none => "err content"
+    | _, _ => "bad-op"
+  | ["prim", mode, hex, "null"] =>
+    match Mode.ofString mode, ofHex hex with
+    | some _, some c => if c.isEmpty then "ok n" else "err content"
+    | _, _ => "bad-op"
+  | _ =>
+    let r := handleSpecLeaf toks
+    if r == "nospec" then handleSpecTlv toks else r
 
 def handle (line : String) : String :=
   let toks := (line.trimAscii.toString.splitOn " ").filter (· ≠ "")
@@ -130,7 +518,9 @@ def handle (line : String) : String :=
   | [] => "bad-op"
   | op :: rest =>
     if op.startsWith "spec." then handleSpec ((op.drop 5).toString :: rest)
-    else handleModel toks
+    else
+      let r := handleModel toks
+      if r == "bad-op:model" then handleLeaf toks else r
 
 partial def loop (inp : IO.FS.Stream) (out : IO.FS.Stream) : IO Unit := do
   let line ← inp.getLine
